@@ -79,6 +79,25 @@ func Grammar(log []drive.Ev, entry map[string]bool, target map[string]string) []
 				visits[e.Node] = 0
 			}
 		case "Flow":
+			// a flow trace is sent by a flow that is at its source node: if every flow that was there has
+			// terminated before (and the node is no entry node, where flows appear untracked), a terminated
+			// flow went on sending traces
+			if !entry[e.Node] {
+				live, dead := 0, ""
+				for f, pos := range at {
+					if pos != e.Node {
+						continue
+					}
+					if _, gone := termAt[f]; gone {
+						dead = f
+					} else {
+						live++
+					}
+				}
+				if live == 0 && dead != "" {
+					out = append(out, Issue{"trace-after-termination", fmt.Sprintf("flow trace %s sent from %s after flow %s, the only one there, had terminated", e, e.Node, dead)})
+				}
+			}
 			known := 0
 			for k, f := range e.Flows {
 				if _, dead := termAt[f]; dead {
